@@ -39,8 +39,6 @@
 //
 //	C04 stale-coroutine-state           a resumed coroutine ended with a non-ok, non-suspension status
 //	                                    through the C's `goto exit` and is called again
-//	C04 io-local-not-synced-around-call an io_bind'ed local is passed to a method by a function
-//	                                    without "derived" I/O arguments
 //	C01 suspend-inside-X / resume-inside-X / jump-out-of-X   (X = io_bind, io_limit, iterate)
 //
 // Unsupported (Outcome.Unsupported, Outcome.Err() wraps ErrUnsupported):
